@@ -373,7 +373,8 @@ impl Out {
     if let Ok(path) = std::env::var("VERIF_DUMP_VIOLS") {
       use std::io::Write;
       if let Ok(mut f) = std::fs::OpenOptions::new().create(true).append(true).open(path) {
-        let _ = writeln!(f, "{}", serde_json::to_string(&json!({"sig": v.signature(), "key": v.key, "input": v.desc, "expected": v.expected, "got": v.got})).unwrap());
+        let line = format!("{}\n", serde_json::to_string(&json!({"sig": v.signature(), "key": v.key, "input": v.desc, "expected": v.expected, "got": v.got})).unwrap());
+        let _ = f.write_all(line.as_bytes());
       }
     }
     // keep the smallest case per signature plus a few more
